@@ -312,11 +312,15 @@ pub fn full_dir_specs(th: bool) -> Vec<ExpSpec> {
             Op::CreateDir { base: r, path: format!("d/{}", "q".repeat(100)), keep: None },
             Op::Rename { base: r, src: "a".into(), dst_base: r, dst: format!("d/{}", "n".repeat(100)) },
             Op::Rename { base: r, src: format!("d/{}", "k".repeat(100)), dst_base: r, dst: format!("d/{}", "j".repeat(70)) },
+            // twenty-one slots = 672 bytes: more than one 512-byte cluster, so the directory has to grow by two clusters
+            Op::CreateFile { base: r, path: format!("d/{}", "w".repeat(255)), keep: None },
             Op::CreateFile { base: r, path: "d/b".into(), keep: None },
             Op::CreateFile { base: r, path: "d/long-name-1.txt".into(), keep: None },
             Op::Remove { base: r, path: format!("d/{}", "k".repeat(100)) },
             Op::Seek { h: 0, pos: SeekSpec::Start(0) },
             Op::Seek { h: 0, pos: SeekSpec::Start(2049) },
+            // (truncating the 3075-byte file here frees exactly one cluster)
+            Op::Seek { h: 0, pos: SeekSpec::Start(3072) },
             Op::Truncate { h: 0 },
             Op::Write { h: 0, len: 513 },
             Op::Flush { h: 0 },
